@@ -18,6 +18,8 @@ mod p10;
 #[cfg(feature = "crypto")]
 mod p11;
 #[cfg(feature = "crypto")]
+mod p12;
+#[cfg(feature = "crypto")]
 mod p13;
 mod zlib;
 mod zmodel;
@@ -121,6 +123,8 @@ fn main() {
         "C10" => p10::run(&mut c),
         #[cfg(feature = "crypto")]
         "C11" => p11::run(&mut c),
+        #[cfg(feature = "crypto")]
+        "C12" => p12::run(&mut c),
         #[cfg(feature = "crypto")]
         "C13" => p13::run(&mut c),
         "C17" => p17::run(&mut c),
